@@ -1129,17 +1129,122 @@ func c05Message(w *World, r *Report) {
 	r.Check(okLoc, "R05.6", "CreateProgram position marker", fd.Pos(), "'<parsed> [X] <unparsed>' from two slices of expr", "the error no longer marks a position inside the expression")
 }
 
+// lexLoop: what one loop of a lexer function does with the input: whether it
+// reads a rune on every way round, and for which values of that rune it goes
+// round again (nil when that cannot be read off).
+type lexLoop struct {
+	pos      token.Pos
+	consumes bool
+	round    ISet
+	decided  bool
+}
+
+// lexLoops reads the loops of f that are not driven by a range clause.
+func lexLoops(w *World, f *ssa.Function) []lexLoop {
+	nextM := w.SSAFunc(w.Method("xpath", "CommonLex", "Next"))
+	nextF := w.SSAFunc(w.Func("xpath", "next"))
+	// the rune a call reads: x.Next() (method or through the lexer interface), or the first result of next(line)
+	runeOf := func(v ssa.Value) *ssa.Call {
+		if ex, ok := v.(*ssa.Extract); ok && ex.Index == 0 {
+			if c, ok := ex.Tuple.(*ssa.Call); ok && c.Call.StaticCallee() == nextF {
+				return c
+			}
+			return nil
+		}
+		c, ok := v.(*ssa.Call)
+		if !ok {
+			return nil
+		}
+		if c.Call.StaticCallee() == nextM || (c.Call.IsInvoke() && nm(c.Call.Method) == "Next" && c.Call.Signature().Results().Len() == 1 && c.Call.Signature().Params().Len() == 0) {
+			return c
+		}
+		return nil
+	}
+	var out []lexLoop
+	sym := NewSym(w)
+	sym.Expand = true
+	for _, l := range ssaLoops(f) {
+		body := l.body()
+		// a loop over a string, slice or count ends by itself
+		ranged := false
+		for _, in := range l.Header.Instrs {
+			switch x := in.(type) {
+			case *ssa.Next:
+				ranged = true
+			case *ssa.Phi:
+				if isRangeIndex(x) {
+					ranged = true
+				}
+			}
+		}
+		if ranged {
+			continue
+		}
+		// candidates for "the rune of this iteration"
+		var cands []ssa.Value
+		var readers []*ssa.BasicBlock
+		for b := range body {
+			for _, in := range b.Instrs {
+				if v, ok := in.(ssa.Value); ok {
+					if rc := runeOf(v); rc != nil {
+						cands = append(cands, v)
+						readers = append(readers, rc.Block())
+					}
+				}
+			}
+		}
+		for _, in := range l.Header.Instrs {
+			phi, ok := in.(*ssa.Phi)
+			if !ok {
+				continue
+			}
+			fed := len(l.Latches) > 0
+			for _, lt := range l.Latches {
+				if rc := runeOf(phiEdge(phi, lt)); rc == nil || !body[rc.Block()] {
+					fed = false
+				}
+			}
+			if fed {
+				cands = append(cands, phi)
+			}
+		}
+		ll := lexLoop{pos: l.Header.Instrs[0].Pos(), consumes: len(l.Latches) > 0}
+		for _, lt := range l.Latches {
+			dom := false
+			for _, rb := range readers {
+				if rb == lt || rb.Dominates(lt) {
+					dom = true
+				}
+			}
+			if !dom {
+				ll.consumes = false
+			}
+		}
+		for _, v := range cands {
+			var round ISet
+			all := true
+			for _, lt := range l.Latches {
+				vals, decided := pcValuesWhen(sym.RoundCond(l.Header, lt, nil), sym.Key(v, nil))
+				if !decided {
+					all = false
+					break
+				}
+				round = round.union(vals)
+			}
+			if all && (!ll.decided || len(round.minus(ll.round)) == 0) {
+				ll.round, ll.decided = round, true
+			}
+		}
+		out = append(out, ll)
+	}
+	return out
+}
+
 func c05LexerLoops(w *World, r *Report) {
 	eof := int64(0)
 	if v, ok := pkgConstInt(w, "xpath/xutils", "EOF"); ok {
 		eof = v
 	}
-	nextM := w.Method("xpath", "CommonLex", "Next")
-	nextI := w.interfaceMethod("xpath", "XpathLexer", "Next")
-	nextF := w.Func("xpath", "next")
-	isWS := w.Method("xpath", "CommonLex", "isWhitespace")
-	wsSetNow := NewPredEval(w, intDom{}).TrueSet(isWS).(ISet)
-	n := 0
 	for _, key := range []string{"xpath", "xpath/grammars/expr", "xpath/grammars/leafref", "xpath/grammars/path_eval"} {
 		p := w.Pkg(key)
 		for _, fd := range funcDecls(p) {
@@ -1150,80 +1255,25 @@ func c05LexerLoops(w *World, r *Report) {
 			if !strings.HasSuffix(file, "lexer.go") {
 				continue
 			}
-			ast.Inspect(fd.Body, func(nd ast.Node) bool {
-				fs, ok := nd.(*ast.ForStmt)
-				if !ok {
-					return true
+			obj, _ := p.TypesInfo.Defs[fd.Name].(*types.Func)
+			top := w.SSAFunc(obj)
+			if top == nil {
+				continue
+			}
+			fns := []*ssa.Function{top}
+			for i := 0; i < len(fns); i++ {
+				fns = append(fns, fns[i].AnonFuncs...)
+			}
+			n := 0
+			for _, f := range fns {
+				for _, ll := range lexLoops(w, f) {
+					n++
+					c := fmt.Sprintf("%s.%s loop #%d", key, funcDeclName(fd), n)
+					exits := ll.decided && !ll.round.contains(eof)
+					r.Check(ll.consumes && exits, "R05.7", c, ll.pos, "reads a rune per iteration; the loop goes round only when the rune read is not EOF",
+						fmt.Sprintf("loop may not terminate: reads a rune per iteration=%v, leaves at EOF=%v", ll.consumes, exits))
 				}
-				n++
-				c := fmt.Sprintf("%s.%s loop #%d", key, funcDeclName(fd), n)
-				// consumption: a top-level statement of the body assigns from Next()/next()
-				var cursor types.Object
-				consumes := false
-				for _, s := range fs.Body.List {
-					if as, ok := s.(*ast.AssignStmt); ok && len(as.Rhs) == 1 {
-						if ce, ok := as.Rhs[0].(*ast.CallExpr); ok {
-							if f := calleeOf(p, ce); f == nextM || f == nextI || f == nextF {
-								consumes = true
-								cursor = objOfIdent(p, as.Lhs[0])
-							}
-						}
-					}
-				}
-				// exit at EOF
-				exits := false
-				why := ""
-				if fs.Cond != nil {
-					for _, cj := range flattenAnd(fs.Cond) {
-						if be, ok := ast.Unparen(cj).(*ast.BinaryExpr); ok && be.Op == token.NEQ && objOfIdent(p, be.X) == cursor {
-							if v, ok := ConstInt(p, be.Y); ok && v == eof {
-								exits = true
-								why = "condition tests the rune against EOF"
-							}
-						}
-						if ce, ok := ast.Unparen(cj).(*ast.CallExpr); ok && calleeOf(p, ce) == isWS && len(ce.Args) == 1 && objOfIdent(p, ce.Args[0]) == cursor && !wsSetNow.contains(eof) {
-							exits = true
-							why = "condition isWhitespace(rune) is false for EOF"
-						}
-					}
-				} else {
-					// for {}: an EOF test on the cursor whose arm leaves the loop
-					ast.Inspect(fs.Body, func(x ast.Node) bool {
-						switch y := x.(type) {
-						case *ast.CaseClause:
-							for _, e := range y.List {
-								if v := ConstOf(p, e); v != nil {
-									if iv, ok := constant.Int64Val(v); ok && iv == eof && v.Kind() == constant.Int {
-										if len(returnsIn(y)) > 0 {
-											exits = true
-											why = "case EOF returns"
-										}
-									}
-								}
-							}
-						case *ast.IfStmt:
-							if be, ok := ast.Unparen(y.Cond).(*ast.BinaryExpr); ok && be.Op == token.EQL && objOfIdent(p, be.X) == cursor {
-								if v, ok := ConstInt(p, be.Y); ok && v == eof && len(y.Body.List) > 0 {
-									switch l := y.Body.List[len(y.Body.List)-1].(type) {
-									case *ast.BranchStmt:
-										if l.Tok == token.BREAK {
-											exits = true
-											why = "if rune == EOF { break }"
-										}
-									case *ast.ReturnStmt:
-										exits = true
-										why = "if rune == EOF { return }"
-									}
-								}
-							}
-						}
-						return true
-					})
-				}
-				r.Check(consumes && exits, "R05.7", c, fs.Pos(), "reads a rune per iteration; "+why,
-					fmt.Sprintf("loop may not terminate: reads a rune per iteration=%v, leaves at EOF=%v", consumes, exits))
-				return true
-			})
+			}
 		}
 	}
 }
